@@ -47,6 +47,8 @@ structure CloneOK (h h' : Heap) (c : Nat) : Prop where
   old : ∀ m : Nat, m < h.size → h'.get m = h.get m
   fresh : ∀ m : Nat, h.size ≤ m → m < h'.size → ∀ kc ∈ h'.childMap m, h.size ≤ (kc.2 : Nat) ∧ (kc.2 : Nat) < h'.size
   datas : h'.datas = h.datas
+  /-- every new node other than the copy's root hangs under a new node -/
+  parents : ∀ m : Nat, h.size < m → m < h'.size → ∀ q : Nat, (h'.get m).parent = some q → h.size ≤ q
 
 /-- the loop invariant of `clone()`: relative to the heap `base` before the call -/
 structure CloneInv (base H : Heap) : Prop where
@@ -54,17 +56,37 @@ structure CloneInv (base H : Heap) : Prop where
   old : ∀ m : Nat, m < base.size → H.get m = base.get m
   fresh : ∀ m : Nat, base.size ≤ m → m < H.size → ∀ kc ∈ H.childMap m, base.size ≤ (kc.2 : Nat) ∧ (kc.2 : Nat) < H.size
   datas : H.datas = base.datas
+  parents : ∀ m : Nat, base.size < m → m < H.size → ∀ q : Nat, (H.get m).parent = some q → base.size ≤ q
 
 theorem cloneStep_inv (fuel : Nat) (base H : Heap) (p : Bytes × Id) (inv : CloneInv base H)
     (ih : CloneOK H (cloneAux fuel H p.2).1 (cloneAux fuel H p.2).2) : CloneInv base (cloneStep fuel base.size H p) := by
-  obtain ⟨r1, r2, r3, r4, r5⟩ := ih
+  obtain ⟨r1, r2, r3, r4, r5, r6⟩ := ih
   have hcl : ((cloneAux fuel H p.2).2 : Nat) = H.size := r1
   unfold cloneStep
   generalize (cloneAux fuel H p.2).1 = H1 at *
   generalize (cloneAux fuel H p.2).2 = cl at *
   subst hcl
   have hg := inv.grows
-  refine ⟨by simp; omega, ?_, ?_, by simp [r5, inv.datas]⟩
+  refine ⟨by simp; omega, ?_, ?_, by simp [r5, inv.datas], ?_⟩
+  rotate_left 2
+  · -- parents of the new nodes
+    intro m hm1 hm2 q hq
+    simp only [size_modify] at hm2
+    have hpar : ((((H1.modify H.size (fun r => { r with parent := some base.size })).modify base.size
+        (fun r => { r with children := some ((r.children.getD []).insert p.1 H.size) })).get m).parent) =
+        ((H1.modify H.size (fun r => { r with parent := some base.size })).get m).parent := by
+      rw [get_modify]; split
+      · rename_i hc; rw [hc.1]
+      · rfl
+    rw [hpar, get_modify] at hq
+    split at hq
+    · simp only [Option.some.injEq] at hq; rw [← hq]; exact Nat.le_refl _
+    · rename_i hc
+      by_cases hmH : m < H.size
+      · rw [r3 m hmH] at hq; exact inv.parents m hm1 hmH q hq
+      · have hne : m ≠ H.size := by intro e; exact hc ⟨e, by omega⟩
+        have := r6 m (by omega) hm2 q hq
+        omega
   · intro m hm
     rw [get_modify_other _ _ _ _ (Nat.ne_of_lt hm), get_modify_other _ _ _ _ (Nat.ne_of_lt (Nat.lt_trans hm hg)), r3 m (by omega), inv.old m hm]
   · intro m hm1 hm2 kc hkc
@@ -118,14 +140,14 @@ theorem cloneAux_ok : ∀ (fuel : Nat) (h : Heap) (n : Nat), SubTree h h.size n 
         have := hsub p (List.mem_cons_self)
         exact SubTree.weaken (Nat.le_of_lt inv.grows) (SubTree.transfer inv.old this)
     have base : CloneInv h (h.alloc (cloneRec (h.get n))).1 := by
-      refine ⟨by simp, fun m hm => by simp [hm], ?_, rfl⟩
+      refine ⟨by simp, fun m hm => by simp [hm], ?_, rfl, fun m hm1 hm2 => by simp only [size_alloc] at hm2; omega⟩
       intro m hm1 hm2 kc hkc
       simp only [size_alloc] at hm2
       have : m = h.size := by omega
       subst this
       simp [childMap, get_alloc, cloneRec] at hkc
     have inv := fold (h.childMap n) _ hkids base
-    exact ⟨rfl, inv.grows, inv.old, inv.fresh, inv.datas⟩
+    exact ⟨rfl, inv.grows, inv.old, inv.fresh, inv.datas, inv.parents⟩
 
 /-- reachable from `c` through children maps -/
 inductive Reach (h : Heap) : Nat → Nat → Prop
@@ -140,7 +162,7 @@ theorem clone_ok (h : Heap) (n : Nat) (hs : SubTree h h.size n h.size) :
     (∀ m : Nat, m < h.size → (h.clone n).1.get m = h.get m) ∧
     (∀ m : Nat, Reach (h.clone n).1 (h.clone n).2 m → h.size ≤ m ∧ m < (h.clone n).1.size) ∧
     (h.clone n).1.datas = h.datas := by
-  obtain ⟨r1, r2, r3, r4, r5⟩ := cloneAux_ok h.size h n hs
+  obtain ⟨r1, r2, r3, r4, r5, _⟩ := cloneAux_ok h.size h n hs
   unfold Heap.clone
   simp only []
   generalize (cloneAux h.size h n).1 = H1 at *
